@@ -163,6 +163,50 @@ def check_recreate_branches(ctx: Ctx, rule: str) -> set:
     return kinds
 
 
+def key_helper_roles(repo) -> Dict[str, Dict[int, str]]:
+    """Meaning of the dotted-key helpers, read from their bodies (one `return key.split/rsplit(".", n)`):
+    helper name -> {index: role} with roles root / rest / parent / leaf / component."""
+    out: Dict[str, Dict[int, str]] = {}
+    m = repo.modules.get("_namespace")
+    if m is None:
+        raise AnalysisError("anchor vanished: module _namespace")
+    for s in m.tree.body:
+        if not isinstance(s, ast.FunctionDef) or not s.name.startswith("split_key"):
+            continue
+        rets = [r for r in ast.walk(s) if isinstance(r, ast.Return)]
+        if len(rets) != 1 or not isinstance(rets[0].value, ast.Call) or call_leaf(rets[0].value) not in ("split", "rsplit"):
+            raise AnalysisError(f"key helper {s.name} is no longer a single str.split/rsplit: its meaning must be re-read")
+        c = rets[0].value
+        sep_ok = c.args and isinstance(c.args[0], ast.Constant) and c.args[0].value == "."
+        if not sep_ok:
+            raise AnalysisError(f"key helper {s.name} no longer splits at '.'")
+        maxsplit = c.args[1].value if len(c.args) > 1 and isinstance(c.args[1], ast.Constant) else None
+        if call_leaf(c) == "split" and maxsplit is None:
+            out[s.name] = {0: "root", -1: "leaf"}
+        elif call_leaf(c) == "split" and maxsplit == 1:
+            out[s.name] = {0: "root", 1: "rest", -1: "rest-or-whole"}
+        elif call_leaf(c) == "rsplit" and maxsplit == 1:
+            out[s.name] = {0: "parent", 1: "leaf", -1: "leaf"}
+        else:
+            raise AnalysisError(f"key helper {s.name}: unexpected split form {src(c)}")
+    return out
+
+
+def key_expr_role(roles: Dict[str, Dict[int, str]], e: ast.AST) -> Optional[Tuple[str, str]]:
+    """(role, unparsed key argument) of `helper(key)[i]`, or None if e is not of that form."""
+    if isinstance(e, ast.Subscript) and isinstance(e.value, ast.Call) and isinstance(e.value.func, ast.Name) and e.value.func.id in roles and e.value.args:
+        idx = e.slice
+        iv = None
+        if isinstance(idx, ast.Constant) and isinstance(idx.value, int):
+            iv = idx.value
+        elif isinstance(idx, ast.UnaryOp) and isinstance(idx.op, ast.USub) and isinstance(idx.operand, ast.Constant):
+            iv = -idx.operand.value
+        r = roles[e.value.func.id].get(iv)
+        if r is not None:
+            return r, ast.unparse(e.value.args[0])
+    return None
+
+
 def contextvar_table(repo) -> Dict[str, Tuple[str, Optional[ast.AST]]]:
     """name -> (module, default expr) for every module-level ContextVar(...) declaration."""
     out: Dict[str, Tuple[str, Optional[ast.AST]]] = {}
